@@ -158,6 +158,16 @@ func (x *Exec) callContract(call *ast.CallExpr, c *Contract, fn *types.Func, rec
 	for i := 0; i < sig.Results().Len(); i++ {
 		rt := x.substDeep(sig.Results().At(i).Type())
 		v := x.ctx.Fresh("ret_"+shortFn(fi.Name), x.sortOf(rt))
+		if c.Pure && fn != nil && recv == nil && !sig.Variadic() {
+			// a function declared pure (no receiver, reads no heap): its result is the same uninterpreted
+			// function of the arguments that contracts denote by F(args), so that specifications can
+			// mention it; the ensures clauses are assumed on top
+			name := pureName(fn)
+			if sig.Results().Len() > 1 {
+				name += fmt.Sprintf("_r%d", i)
+			}
+			v = x.name(st, "pure", x.ctx.App(name, x.sortOf(rt), args...))
+		}
 		for _, f := range x.typeFacts(v, rt) {
 			st.assume(f)
 		}
